@@ -183,3 +183,50 @@ Proof.
     now rewrite (fields_ok fields l rest IH Hwf).
 Qed.
 End Main.
+
+(* ------------------------------------------------------------------ corollaries *)
+Theorem decode_encode bk s d rest : wf s d -> decode s (encode bk false s d ++ rest) = Some (d, rest).
+Proof. intros H. exact (decode_encode_all bk s d rest H). Qed.
+
+Corollary decode_encode_writer s d : wf s d -> decode s (encode_w s d) = Some (d, []).
+Proof. intros H. rewrite <- (app_nil_r (encode_w s d)). now apply decode_encode. Qed.
+
+(* decimal over bytes: minimal two's complement form, sign extension back to w bytes, value *)
+Theorem decimal_bytes_roundtrip w v : (0 < w)%nat -> (- 2^(8 * Z.of_nat w - 1) <= v < 2^(8 * Z.of_nat w - 1))%Z ->
+  sign_fit w (minimal_twos (be_bytes w v)) = Some (be_bytes w v) /\ from_be (be_bytes w v) = v.
+Proof.
+  intros Hw Hv. split; [|now apply from_be_be_bytes].
+  pose proof (be_bytes_bytes w v) as HB. pose proof (be_bytes_length w v) as HL.
+  destruct (minimal_twos_skip (be_bytes w v) HB) as [dd [Hd [Hm [Hf Hs]]]].
+  { intros E. rewrite E in HL. cbn [length] in HL. lia. }
+  rewrite Hm. rewrite <- HL at 1. now apply sign_fit_skip.
+Qed.
+
+(* decimal over fixed(n): whatever the writer's sign extension / truncation accepts is read back *)
+Theorem decimal_fixed_roundtrip w n v R : (0 < w)%nat -> (0 < n)%nat ->
+  (- 2^(8 * Z.of_nat w - 1) <= v < 2^(8 * Z.of_nat w - 1))%Z ->
+  sign_fit n (be_bytes w v) = Some R ->
+  length R = n /\ sign_fit w R = Some (be_bytes w v) /\ from_be (be_bytes w v) = v.
+Proof.
+  intros Hw Hn Hv HR. split; [now apply sign_fit_length in HR|]. split; [|now apply from_be_be_bytes].
+  pose proof (be_bytes_length w v) as HL. rewrite <- HL at 1.
+  apply (sign_fit_back _ n R); [apply be_bytes_bytes|lia|exact Hn|exact HR].
+Qed.
+
+(* non-vacuity: a nested datum satisfying wf, and its round trip computed *)
+Definition ex_schema : schema :=
+  SRecord [SLong; SNullable false SString; SArray (SNullable true SInt); SMap SDouble;
+           SUnion [SNull; SBool; SBytes]; SDecBytes 16; SDecFixed 16 5; SEnum 3].
+Definition ex_datum : datum :=
+  DRecord [DLong (-9223372036854775808)%Z; DOpt (Some (DString [104; 195; 169]));
+           DArray [DOpt (Some (DInt 7%Z)); DOpt None; DOpt (Some (DInt (-2147483648)%Z))];
+           DMap [([97], DDouble 4611686018427387904); ([98; 99], DDouble 0)];
+           DUnion 2 (DBytes [1; 2; 255]); DDec (-129)%Z; DDec 70000%Z; DEnum 2%Z].
+Example ex_wf : wf ex_schema ex_datum.
+Proof.
+  cbn [wf ex_schema ex_datum]. unfold i64, i32, byte_list, len_ok, max_items. cbn [length].
+  repeat split; try lia; try reflexivity; try discriminate;
+    repeat (constructor; cbn [fst snd wf length]; unfold i32, byte_list, len_ok; repeat split; try lia; try reflexivity).
+Qed.
+Example ex_roundtrip : decode ex_schema (encode 2 false ex_schema ex_datum) = Some (ex_datum, []).
+Proof. vm_compute. reflexivity. Qed.
